@@ -90,33 +90,38 @@ class Dispatch(Unit):
     def setup(self, I):
         self.I = I
         f = raw(Connection, self.which)
-        keys = loop_keys(f, C_ + self.which, kind=ast.For)
-        if len(keys) != 2:
-            raise Unsupported('contract does not fit the code any more: %s no longer has two listener loops' % self.which)
+        from .common import reachable_loops
+        keys = reachable_loops(f, Connection, kind=ast.For, depth=1)
+        if not keys:
+            raise Unsupported('contract does not fit the code any more: %s has no listener loop' % self.which)
         unit = self
+        cur = {}
 
-        def mk(kind, key):
-            def length(I_, it):
-                return it.n
+        # ONE contract for "offer the packet to every listener of a list, in order"; which stage it is follows from the
+        # list being iterated (early / ordinary), not from where the loop is written (inline or in a shared helper)
+        def length(I_, it):
+            if not isinstance(it, AbsList):
+                raise Unsupported('listener-loop contract applied to a loop over %s' % type(it).__name__)
+            cur['kind'] = it.kind
+            return it.n
 
-            def element(I_, it, j):
-                return AbsListener(unit, kind, j)
+        def element(I_, it, j):
+            return AbsListener(unit, it.kind, j)
 
-            def inv(I_, frame, j):
-                G = unit.G
-                if kind == 'early':
-                    return And(G.early == j, G.main == 0, G.normal == 0)
-                return And(G.early == unit.n_early, G.main == 1, G.normal == j)
+        def inv(I_, frame, j):
+            G = unit.G
+            if cur['kind'] == 'early':
+                return And(G.early == j, G.main == 0, G.normal == 0)
+            return And(G.early == unit.n_early, G.main == 1, G.normal == j)
 
-            def havoc(I_, frame, j):
-                # the loop only advances the ghost counter of its own stage
-                if kind == 'early':
-                    unit.G.early = j
-                else:
-                    unit.G.normal = j
-            I.loop_specs[key] = ForSpec('%s-listeners' % kind, length, element, inv, havoc)
-        mk('early', keys[0])
-        mk('normal', keys[1])
+        def havoc(I_, frame, j):
+            # the loop only advances the ghost counter of its own stage
+            if cur['kind'] == 'early':
+                unit.G.early = j
+            else:
+                unit.G.normal = j
+        for key in keys:
+            I.loop_specs[key] = ForSpec('listeners', length, element, inv, havoc)
 
     def run(self, I):
         E = I.E
